@@ -17,6 +17,7 @@ import functools
 import hashlib
 import inspect
 from collections import namedtuple
+from threading import RLock
 from typing import Callable, Dict, Any, Tuple, List, Union, Optional, Set, cast
 
 from .configuration import Environment, ENVIRONMENT_HASH_BYTES
@@ -42,6 +43,15 @@ from .metadata import ResultType
 _MementoFunctionVersionCacheEntry = namedtuple(
     "_MementoFunctionVersionCacheEntry", ["as_of_generation", "version"]
 )
+
+
+_fn_version_lock = RLock()
+"""
+Serializes the computation of function versions. Computing a version updates the calculated
+version, the function reference, the hash rules and the version cache entry one after the other:
+a second thread must not see some of them updated and others not (it would use a reference
+with an outdated version).
+"""
 
 
 class MementoFunction(MementoFunctionBase):
@@ -414,7 +424,10 @@ class MementoFunction(MementoFunctionBase):
 
     def _update_dependencies(self):
         """Assemble dependencies and update the version and fn_reference"""
+        with _fn_version_lock:
+            self._update_dependencies_locked()
 
+    def _update_dependencies_locked(self):
         # If version is explicitly specified, function reference is static.
         if self.explicit_version is not None:
             if self._fn_reference is None:
